@@ -359,13 +359,21 @@ pub fn run(run: &mut Run) {
     let mut sel = Sel::standard(thorough);
     sel.m4 = None;
     if !thorough {
-        // quick: M3, RAY and EP use the reduced W-scan (occupied sources + empty-source probe
-        // set); CASTLE, PROMO and REACH scan all of W
-        let (ray, ep) = (sel.ray.take(), sel.ep.take());
-        sel.m3 = false;
-        run_universes(run, &sel, DISAGREE, &check_pos);
-        let sel2 = Sel { m3: true, ray, ep, ..Default::default() };
-        run.notes.push("quick: M3, RAY and EP use the reduced W-scan (members of W whose source is occupied + sources on the a8-h1 diagonal)".into());
+        // quick: the complete W-scan on CASTLE, PROMO and REACH; the reduced W-scan (members of
+        // W whose source is occupied + the empty-source probe set) on all other families
+        let full = Sel { castle: sel.castle, promo: sel.promo, reach: sel.reach, ..Default::default() };
+        run_universes(run, &full, DISAGREE, &check_pos);
+        let mut sel2 = sel.clone();
+        sel2.castle = None;
+        sel2.promo = None;
+        sel2.reach = None;
+        sel2.m3 = true;
+        // legality-oriented families add nothing for pseudo-legal generation: thorough only
+        sel2.promo2 = false;
+        sel2.battery = None;
+        sel2.pin2 = Some(2);
+        sel2.ep_spread_only = true;
+        run.notes.push("quick: all families except CASTLE, PROMO and REACH use the reduced W-scan (members of W whose source is occupied + sources on the a8-h1 diagonal)".into());
         run_universes(run, &sel2, DISAGREE, &check_pos_reduced);
     } else {
         run_universes(run, &sel, DISAGREE, &check_pos);
